@@ -4,6 +4,7 @@ import (
 	"fmt"
 	"go/constant"
 	"go/token"
+	"sort"
 	"go/types"
 	"strings"
 
@@ -1152,4 +1153,203 @@ func fieldOfValue(v ssa.Value) *types.Var {
 		return an.FieldVar(f.X.Type(), f.Field)
 	}
 	return nil
+}
+
+// ---- C03.list-complete: a listing is read to its last page ------------------------------------------
+
+func init() {
+	register(&Rule{Name: "C03.list-complete", Min: 2, Run: c03ListComplete,
+		Doc: "every LIST of the bucket is paged to the end: the loop stops only on the response's IsTruncated / NextContinuationToken, and the next request carries NextContinuationToken"})
+	byProp["C03"] = append(byProp["C03"], "C03.list-complete")
+	byProp["C09"] = append(byProp["C09"], "C03.list-complete")
+	explain["C03"] += " list-complete: S3 answers a LIST with at most one page; an opener that stops after a page sees only some of the current versions (and a writable one commits that partial merge). At every ListObjectsV2 call site the request sits in a loop, the only conditions that end the loop normally are functions of the response's IsTruncated / NextContinuationToken, and the following request's ContinuationToken is the response's NextContinuationToken on every way back to the loop head."
+}
+
+func c03ListComplete(c *Ctx) {
+	const rule = "C03.list-complete"
+	n := 0
+	for _, fn := range c.P.RepoFuncs(an.LibraryPkg) {
+		for _, call := range an.Calls(fn) {
+			lbl := calleeLabel(call)
+			if lbl != "ListObjectsV2WithContext" && lbl != "ListObjectsV2" && lbl != "ListObjectsWithContext" && lbl != "ListObjects" {
+				continue
+			}
+			cv, ok := call.(ssa.Value)
+			if !ok {
+				continue
+			}
+			n++
+			name := core.FuncName(fn)
+			c.R.SawFunc(name)
+			pos := c.P.Pos(call.Pos())
+			var out, errv ssa.Value
+			for _, r := range *cv.Referrers() {
+				if ex, ok := r.(*ssa.Extract); ok {
+					if ex.Index == 0 {
+						out = ex
+					} else {
+						errv = ex
+					}
+				}
+			}
+			H := loopHeaderOf(call.Block())
+			if H == nil || out == nil {
+				c.R.Bad(rule, name+": LIST is paged", pos, "the LIST request is not in a loop (or its result is unused): S3 returns at most one page of keys per request, the rest of the listing is never read")
+				continue
+			}
+			inLoop := func(b *ssa.BasicBlock) bool {
+				return H.Dominates(b) && an.ReachableFromBlock(b, H, nil)
+			}
+			isOutField := func(v ssa.Value) (string, bool) {
+				f := an.FieldOfLoad(v)
+				if f == nil {
+					return "", false
+				}
+				p := an.FieldPath(v)
+				_ = p
+				if root := an.ExprRoot(v); root != out {
+					return "", false
+				}
+				return f.Name(), true
+			}
+			// conditions that decide whether the loop goes on
+			allowed := map[string]bool{"IsTruncated": true, "NextContinuationToken": true}
+			good := true
+			why := ""
+			nconds := 0
+			for _, b := range fn.Blocks {
+				if !inLoop(b) {
+					continue
+				}
+				iff, ok := b.Instrs[len(b.Instrs)-1].(*ssa.If)
+				if !ok {
+					continue
+				}
+				r0 := b.Succs[0] == H || an.ReachableFromBlock(b.Succs[0], H, nil) && H.Dominates(b.Succs[0])
+				r1 := b.Succs[1] == H || an.ReachableFromBlock(b.Succs[1], H, nil) && H.Dominates(b.Succs[1])
+				if r0 == r1 {
+					continue
+				}
+				// the error test of the request itself
+				if v, _, isNil := nilTestedValue(iff); isNil && errv != nil && v == errv {
+					continue
+				}
+				nconds++
+				fields := map[string]bool{}
+				other := false
+				seen := map[ssa.Value]bool{}
+				var walk func(v ssa.Value, d int)
+				walk = func(v ssa.Value, d int) {
+					if v == nil || seen[v] || d > 12 {
+						return
+					}
+					seen[v] = true
+					if fnm, ok := isOutField(v); ok {
+						fields[fnm] = true
+						return
+					}
+					switch x := v.(type) {
+					case *ssa.Const:
+						return
+					case *ssa.Parameter, *ssa.FreeVar, *ssa.Global:
+						other = true
+						return
+					case *ssa.Phi:
+						for _, e := range x.Edges {
+							walk(e, d+1)
+						}
+						return
+					}
+					if in, ok := v.(ssa.Instruction); ok {
+						ops := in.Operands(nil)
+						if len(ops) == 0 {
+							other = true
+						}
+						for _, op := range ops {
+							if *op != nil {
+								if _, isFn := (*op).(*ssa.Function); isFn {
+									continue
+								}
+								if _, isB := (*op).(*ssa.Builtin); isB {
+									continue
+								}
+								walk(*op, d+1)
+							}
+						}
+					}
+				}
+				walk(iff.Cond, 0)
+				var badF []string
+				for f := range fields {
+					if !allowed[f] {
+						badF = append(badF, f)
+					}
+				}
+				sort.Strings(badF)
+				if len(badF) > 0 || other || len(fields) == 0 {
+					good = false
+					why = fmt.Sprintf("the condition at %s that ends the listing depends on %v (other inputs: %v): only IsTruncated / NextContinuationToken of the response say whether there is another page — e.g. ContinuationToken merely echoes the request and is nil on the first page, so the loop would stop after one page and the opener would merge only some of the current versions", c.P.Pos(iff.Cond.Pos()), badF, other)
+				}
+			}
+			if nconds == 0 {
+				good, why = false, "no condition on the response decides whether another page is requested"
+			}
+			c.R.Cond(good, rule, name+": stops only at the last page", pos, "the loop ends normally only on IsTruncated / NextContinuationToken of the response", why)
+			// continuation token
+			tokOK := false
+			var tokStore *ssa.Store
+			for _, b := range fn.Blocks {
+				for _, in := range b.Instrs {
+					st, ok := in.(*ssa.Store)
+					if !ok {
+						continue
+					}
+					fa, ok := st.Addr.(*ssa.FieldAddr)
+					if !ok {
+						continue
+					}
+					fv := an.FieldVar(fa.X.Type(), fa.Field)
+					if fv == nil || fv.Name() != "ContinuationToken" && fv.Name() != "Marker" {
+						continue
+					}
+					if fnm, ok := isOutField(st.Val); ok && (fnm == "NextContinuationToken" || fnm == "NextMarker") && inLoop(b) {
+						tokOK = true
+						tokStore = st
+					}
+				}
+			}
+			if !tokOK {
+				c.R.Bad(rule, name+": next request continues the listing", pos, "no assignment of the response's NextContinuationToken to the next request's ContinuationToken: every request would return the first page")
+				continue
+			}
+			back := true
+			for _, p := range H.Preds {
+				if H.Dominates(p) && !(tokStore.Block() == p || tokStore.Block().Dominates(p)) {
+					back = false
+				}
+			}
+			c.R.Cond(back, rule, name+": next request continues the listing", c.P.Pos(tokStore.Pos()), "every way back to the loop head passes the assignment of NextContinuationToken", "some way back to the loop head skips the assignment of the continuation token: the same page would be requested again")
+		}
+	}
+	if n == 0 {
+		c.R.Unk(rule, "LIST call sites", "-", "no ListObjectsV2 call found in library code")
+	}
+}
+
+// nilTestedValue recognises "v == nil" / "v != nil".
+func nilTestedValue(iff *ssa.If) (ssa.Value, bool, bool) {
+	cond, neg := an.StripNot(iff.Cond)
+	bo, ok := cond.(*ssa.BinOp)
+	if !ok || bo.Op != token.EQL && bo.Op != token.NEQ {
+		return nil, false, false
+	}
+	var v ssa.Value
+	if an.IsNilConst(bo.Y) {
+		v = bo.X
+	} else if an.IsNilConst(bo.X) {
+		v = bo.Y
+	} else {
+		return nil, false, false
+	}
+	return v, (bo.Op == token.NEQ) != neg, true
 }
